@@ -16,9 +16,11 @@
      VisitVarDecl/claimOrCopy 386-412,462-536; exitScope/exitFuncScope 414-448; VisitStringLit etc.
      (addTemporary); BIN_CONCAT 1029-1100; BIN_AND/OR 955-996; TER_FALLS 1610-1674; VisitFuncCall
      2015-2117 + defineFuncBody 616-681; VisitAssignStmt 2306-2335; VisitBlockStmt, VisitIfStmt,
-     VisitWhileStmt (condition compiled AFTER the body, in the enclosing scope), VisitForStmt (`bis`
-     compiled twice, after the body, in the loop scope), VisitForRangeStmt (protected temporary and
-     loop variable), VisitBreakContinueStmt/exitNestedScopes, VisitReturnStmt 2720-2769. *)
+     VisitWhileStmt (condition compiled AFTER the body, in a scope of its own that is left on every
+     iteration), VisitForStmt (`bis` compiled twice, after the body, each in a scope of its own),
+     VisitForRangeStmt (protected temporary and loop variable), VisitBreakContinueStmt/exitNestedScopes
+     (a continue keeps the scope of counting and for-each loops: curLoopScopeSurvives),
+     VisitReturnStmt.  State of /repo: after the repairs c2054d3 2f9971e bf84b8a 597753d 39a39c6 6711de1. *)
 From Coq Require Import List NArith Bool Arith.
 Import ListNotations.
 From DDP Require Import Rt.Heap.
@@ -112,7 +114,8 @@ Record cstate := mkC {
   c_scopes : list scope;                 (* innermost first *)
   c_next : nat;                          (* next alloca *)
   c_env : list (var * place);
-  c_loop : option nat;                   (* height of curLoopScope *)
+  c_loop : option (nat * nat);           (* height of curLoopScope for break; lowest height left by a continue
+                                            (curLoopScopeSurvives: counting and for-each loops keep their scope) *)
   c_fun : option (nat * option nat)      (* height of cfscp, return slot *)
 }.
 
@@ -124,6 +127,9 @@ Definition with_scopes (cs : cstate) (l : list scope) : cstate :=
   mkC l (c_next cs) (c_env cs) (c_loop cs) (c_fun cs).
 Definition push_scope (cs : cstate) : cstate := with_scopes cs (empty_scope :: c_scopes cs).
 Definition pop_scope (cs : cstate) : cstate := with_scopes cs (tl (c_scopes cs)).
+(* leaving a block: the variables declared in it are no longer visible (lookupVar walks the scope chain) *)
+Definition leave_scope (cs : cstate) (env0 : list (var * place)) : cstate :=
+  mkC (tl (c_scopes cs)) (c_next cs) env0 (c_loop cs) (c_fun cs).
 Definition height (cs : cstate) : nat := length (c_scopes cs).
 
 Definition map_head (f : scope -> scope) (cs : cstate) : cstate :=
@@ -421,9 +427,9 @@ Section Compile.
     end.
 
   (* frees emitted by break/continue: exitNestedScopes(curLoopScope) *)
-  Definition loop_exit_frees (cs : cstate) : option (list instr) :=
+  Definition loop_exit_frees (brk : bool) (cs : cstate) : option (list instr) :=
     match c_loop cs with
-    | Some h => Some (flat_map (exit_frees false) (scopes_down_to (c_scopes cs) h))
+    | Some (hb, hc) => Some (flat_map (exit_frees false) (scopes_down_to (c_scopes cs) (if brk then hb else hc)))
     | None => None
     end.
   (* frees emitted by return: every scope inside the function with force, then exitFuncScope *)
@@ -433,7 +439,7 @@ Section Compile.
     | None => None
     end.
 
-  Definition set_loop (cs : cstate) (l : option nat) : cstate :=
+  Definition set_loop (cs : cstate) (l : option (nat * nat)) : cstate :=
     mkC (c_scopes cs) (c_next cs) (c_env cs) l (c_fun cs).
 
   Fixpoint cstmt (s : stmt) (cs : cstate) {struct s} : option (instr * cstate) :=
@@ -505,7 +511,7 @@ Section Compile.
     | SExpr e => match cexpr e cs with Some (ie, _, cs1) => Some (ie, cs1) | None => None end
     | SBlock b =>
       match cstmt b (push_scope cs) with
-      | Some (ib, cs1) => Some (iseq (ib :: exit_frees false (hd empty_scope (c_scopes cs1))), pop_scope cs1)
+      | Some (ib, cs1) => Some (iseq (ib :: exit_frees false (hd empty_scope (c_scopes cs1))), leave_scope cs1 (c_env cs))
       | None => None
       end
     | SIf c a b =>
@@ -514,10 +520,10 @@ Section Compile.
         match cstmt a (push_scope cs0) with
         | Some (ia, cs1) =>
           let fa := exit_frees false (hd empty_scope (c_scopes cs1)) in
-          match cstmt b (push_scope (pop_scope cs1)) with
+          match cstmt b (push_scope (leave_scope cs1 (c_env cs0))) with
           | Some (ib, cs2) =>
             let fb := exit_frees false (hd empty_scope (c_scopes cs2)) in
-            Some (ISeq ic (IIf (iseq (ia :: fa)) (iseq (ib :: fb))), pop_scope cs2)
+            Some (ISeq ic (IIf (iseq (ia :: fa)) (iseq (ib :: fb))), leave_scope cs2 (c_env cs0))
           | None => None
           end
         | None => None
@@ -527,12 +533,15 @@ Section Compile.
     | SWhile c b | SDoWhile b c =>
       let skipfirst := match s with SDoWhile _ _ => true | _ => false end in
       let csb := push_scope cs in
-      match cstmt b (set_loop csb (Some (height csb))) with
+      match cstmt b (set_loop csb (Some (height csb, height csb))) with
       | Some (ib, cs1) =>
         let fb := exit_frees false (hd empty_scope (c_scopes cs1)) in
-        (* the condition is compiled after the body, in the enclosing scope, and runs every iteration *)
-        match cexpr c (set_loop (pop_scope cs1) (c_loop cs)) with
-        | Some (ic, _, cs2) => Some (ILoop skipfirst None ic (iseq (ib :: fb)) ISkip ISkip ISkip, cs2)
+        (* the condition is compiled after the body; it runs on every iteration in a scope of its own, whose
+           temporaries are freed each time (2f9971e) *)
+        match cexpr c (push_scope (set_loop (leave_scope cs1 (c_env cs)) (c_loop cs))) with
+        | Some (ic, _, cs2) =>
+          let fc := exit_frees false (hd empty_scope (c_scopes cs2)) in
+          Some (ILoop skipfirst None (iseq (ic :: fc)) (iseq (ib :: fb)) ISkip ISkip ISkip, pop_scope cs2)
         | None => None
         end
       | None => None
@@ -541,10 +550,10 @@ Section Compile.
       match cexpr c cs with
       | Some (ic, _, cs0) =>
         let csb := push_scope cs0 in
-        match cstmt b (set_loop csb (Some (height csb))) with
+        match cstmt b (set_loop csb (Some (height csb, height csb))) with
         | Some (ib, cs1) =>
           let fb := exit_frees false (hd empty_scope (c_scopes cs1)) in
-          Some (ISeq ic (ILoop false (Some k) ISkip (iseq (ib :: fb)) ISkip ISkip ISkip), set_loop (pop_scope cs1) (c_loop cs))
+          Some (ISeq ic (ILoop false (Some k) ISkip (iseq (ib :: fb)) ISkip ISkip ISkip), set_loop (leave_scope cs1 (c_env cs0)) (c_loop cs))
         | None => None
         end
       | None => None
@@ -555,16 +564,20 @@ Section Compile.
       | Some (ifrom, _, cs1) =>
         match cexpr step cs1 with
         | Some (istep, _, cs2) =>
-          match cstmt b (set_loop cs2 (Some (height cs2))) with
+          match cstmt b (set_loop cs2 (Some (height cs2, S (height cs2)))) with
           | Some (ib, cs3) =>
-            (* `bis` is compiled once for counting up and once for counting down, in the loop scope *)
-            match cexpr to cs3 with
+            (* `bis` is compiled once for counting up and once for counting down; each evaluation has a scope
+               of its own whose temporaries are freed on every iteration (bf84b8a) *)
+            match cexpr to (push_scope cs3) with
             | Some (iup, _, cs4) =>
-              match cexpr to cs4 with
+              let fup := exit_frees false (hd empty_scope (c_scopes cs4)) in
+              match cexpr to (push_scope (pop_scope cs4)) with
               | Some (idown, _, cs5) =>
-                let leave := exit_frees false (hd empty_scope (c_scopes cs5)) in
-                Some (iseq [ifrom; istep; ILoop false (Some k) (if down then idown else iup) ib ISkip ISkip (iseq leave)],
-                      set_loop (pop_scope cs5) (c_loop cs))
+                let fdown := exit_frees false (hd empty_scope (c_scopes cs5)) in
+                let cs6 := pop_scope cs5 in
+                let leave := exit_frees false (hd empty_scope (c_scopes cs6)) in
+                Some (iseq [ifrom; istep; ILoop false (Some k) (if down then iseq (idown :: fdown) else iseq (iup :: fup)) ib ISkip ISkip (iseq leave)],
+                      set_loop (leave_scope cs6 (c_env cs)) (c_loop cs))
               | None => None
               end
             | None => None
@@ -590,20 +603,20 @@ Section Compile.
                             end in
           let pre := match lv, np with Some v, Some n => [INew v n] | _, _ => [] end in
           let post := match lv with Some v => [IFree v] | None => [] end in
-          match cstmt b (set_loop cs5 (Some (height cs5))) with
+          match cstmt b (set_loop cs5 (Some (height cs5, S (height cs5)))) with
           | Some (ib, cs6) =>
             let cs7 := set_prot t false cs6 in
             let leave := exit_frees false (hd empty_scope (c_scopes cs7)) in
             Some (iseq [ie; icc; ILoop false (Some k) ISkip (iseq (pre ++ ib :: post)) (iseq post) (iseq (IFree t :: post)) (iseq leave)],
-                  set_loop (pop_scope cs7) (c_loop cs))
+                  set_loop (leave_scope cs7 (c_env cs)) (c_loop cs))
           | None => None
           end
         | None => None
         end
       | None => None
       end
-    | SBreak => match loop_exit_frees cs with Some fs => Some (iseq (fs ++ [IBreak]), cs) | None => None end
-    | SContinue => match loop_exit_frees cs with Some fs => Some (iseq (fs ++ [IContinue]), cs) | None => None end
+    | SBreak => match loop_exit_frees true cs with Some fs => Some (iseq (fs ++ [IBreak]), cs) | None => None end
+    | SContinue => match loop_exit_frees false cs with Some fs => Some (iseq (fs ++ [IContinue]), cs) | None => None end
     | SReturn None => match return_frees cs with Some fs => Some (iseq (fs ++ [IRet]), cs) | None => None end
     | SReturn (Some e) =>
       match cexpr e cs with
@@ -670,7 +683,7 @@ Fixpoint inline_d (P : program) (d : nat) (f : nat) (locs : list (option place))
           let cs6 := pop_scope cs5 in
           let ffun := exit_frees true (hd empty_scope (c_scopes cs6)) in
           let cs7 := pop_scope cs6 in
-          let cs8 := mkC (c_scopes cs7) (c_next cs7) (c_env cs7) saved_loop saved_fun in
+          let cs8 := mkC (c_scopes cs7) (c_next cs7) (c_env cs0) saved_loop saved_fun in
           let code := IFun consumed ret (iseq (moves ++ ib :: fbody ++ ffun)) in
           match ret with
           | Some r => Some (code, RTemp r, add_temp r false cs8)
